@@ -157,7 +157,9 @@ where
     /// Remove the coefficient of a power in the polynomial
     pub fn purge_coefficient(&mut self, power: usize) {
         match self.coefficients.len() {
-            len if len == power && len != 1 => {
+            // The polynomial does not have this power
+            len if len <= power => {}
+            len if len == power + 1 && len != 1 => {
                 self.coefficients.pop();
             }
             _ => {
